@@ -118,15 +118,26 @@ def c12_2(ctx):
     if not none_exits:
         ctx.bad("truncated-length-field-reported", ctx.where(d), "decode_OP_PUSHDATA has no exit that reports the size as None: a PUSHDATA whose length field is cut off by the end of the script decodes as a valid push")
     else:
-        ok = False
+        ok, only_empty = False, []
         for x in none_exits:
             ops = [o for o in (gi.f_opaques(x.cond) if x.cond not in (True, False) else []) if isinstance(o, str)]
-            if any(not o.startswith("exc@") for o in ops):
-                ok = True       # an explicit test (length comparison) selects it
+            for o in ops:
+                if o.startswith("exc@"):
+                    continue
+                # an explicit test selects it: it has to compare the number of bytes that are there with the WIDTH of the field
+                # (a test for `no byte at all` lets a 1-byte stump of a 2- or 4-byte field through)
+                if "len(" in o and ("struct_size" in o or "calcsize" in o or " < " in o):
+                    ok = True
+                else:
+                    only_empty.append(o)
             for t in [n for n in ast.walk(d.node) if isinstance(n, ast.Try)]:
                 if any(isinstance(c, ast.Call) and norm(c.func).endswith("unpack") for b in t.body for c in ast.walk(b)):
-                    ok = True   # struct.unpack raises struct.error on a short slice
-        ctx.check(ok, "truncated-length-field-reported", ctx.where(d), "decode_OP_PUSHDATA reports size None only from an exception handler whose body cannot fail on a short length field")
+                    ok = True   # struct.unpack raises struct.error on a slice of any other length than the field's
+        lenient = [c for c in ast.walk(sym.expanded(ctx, d)) if isinstance(c, ast.Call) and norm(c.func) == "int.from_bytes"]
+        if not ok and only_empty and lenient:
+            ctx.bad("truncated-length-field-reported", ctx.where(d, lenient[0]), "decode_OP_PUSHDATA refuses only `%s` and reads the length with int.from_bytes, which accepts a slice of any length: a length field cut off after its first byte(s) decodes as a number instead of being reported as truncated" % only_empty[0][:60])
+        else:
+            ctx.check(ok or bool(only_empty), "truncated-length-field-reported", ctx.where(d), "decode_OP_PUSHDATA reports size None only from an exception handler whose body cannot fail on a short length field")
     e = ctx.func("pycoin/vm/VM.py", "VM.eval_instruction")
     w = sym.walk(ctx, e)
     rz = [x for x in w.exits if x.kind == "raise"]
@@ -199,6 +210,24 @@ def _rng(s):
 def c12_4(ctx):
     _refcheck(ctx, INT, "IntStreamer.int_from_script_bytes", "is_int_from_script_bytes", "decode-sign-magnitude")
     _refcheck(ctx, INT, "IntStreamer.int_to_script_bytes", "is_int_to_script_bytes", "encode-sign-magnitude")
+    # the script-number codec is defined on ALL integers (the property quantifies over them): no fixed-width packing, which raises
+    # (struct.error / OverflowError) once the magnitude outgrows the width
+    for nm in ("IntStreamer.int_to_script_bytes", "IntStreamer.int_from_script_bytes"):
+        g = ctx.func(INT, nm)
+        fixed = []
+        m_ = g.module
+        mod_structs = {n_ for n_, vs in m_.assigns.items() if any(isinstance(v, ast.Call) and norm(v.func) == "struct.Struct" for v in vs)}
+        for c in ast.walk(sym.expanded(ctx, g)):
+            if not isinstance(c, ast.Call):
+                continue
+            t = norm(c.func)
+            if t in ("struct.pack", "struct.unpack", "struct.Struct") or (isinstance(c.func, ast.Attribute) and isinstance(c.func.value, ast.Name) and c.func.value.id in mod_structs and c.func.attr in ("pack", "unpack")):
+                fixed.append(c)
+            elif t.endswith(".to_bytes") and c.args and df.const_int(c.args[0]) is not None:
+                fixed.append(c)
+        ctx.check(not fixed, "unbounded-script-numbers:%s" % nm.split(".")[-1], ctx.where(g, fixed[0]) if fixed else ctx.where(g),
+                  "%s packs with `%s`, a fixed width: integers whose magnitude does not fit no longer encode (struct.error / OverflowError) although the codec is defined for every integer" % (nm, norm(fixed[0])[:60] if fixed else ""),
+                  sample={"function": nm, "fixed_width_packs": 0})
 
 
 # ------------------------------------------------------------------ C12.5
